@@ -326,37 +326,8 @@ def run(ctx: Ctx) -> None:
     ctx.floor("R-C24.6", "QubitFinder visit overloads", n_over, 3)
 
     # ------------------------------------------------------------ R-C24.7 plumbing
-    pk = idx.find_func("_parse_kwargs", "guppylang.decorator")
-    und = None
-    bad = []
-    names = ["unitary", "control", "dagger", "power"]
-    bitof = {"unitary": dom.mask, "control": dom.members["Control"], "dagger": D, "power": dom.members["Power"]}
-    import itertools
-    for vals in itertools.product((False, True), repeat=4):
-        given = dict(zip(names, vals))
-
-        def pop(node, e, en, given=given):
-            k = node.args[0].value if node.args and isinstance(node.args[0], ast.Constant) else None
-            if k not in given:
-                raise Unsupported(f"kwargs.pop({ast.unparse(node.args[0]) if node.args else ''})")
-            return given[k]
-        env = {f"{pk.node.args.args[0].arg}.pop": pop, "next": lambda node, e, en: None}
-        try:
-            out = ev.run(pk.node.body, env)
-        except Unsupported as e:
-            und = str(e)
-            break
-        wantbits = 0
-        for k, v in given.items():
-            if v:
-                wantbits |= bitof[k]
-        if out[0] != "return" or not isinstance(out[1], FlagV) or out[1].bits != wantbits:
-            bad.append({"kwargs": {k: v for k, v in given.items() if v}, "got": repr(out[1]) if out[0] == "return" else out[0], "want_bits": wantbits})
-    if und:
-        ctx.undecided("R-C24.7", f"{pk.qualname}#kwargs-to-flags", pk.where, und)
-    else:
-        ctx.check(not bad, "R-C24.7", f"{pk.qualname}#kwargs-to-flags", pk.where, {"cases": 16, "counterexamples": bad[:4]},
-                  "a @guppy(unitary/control/dagger/power=True) keyword is mapped to the wrong flag set")
+    from . import c24_kwargs
+    c24_kwargs.run(ctx, dom)
     # definition -> parse -> check -> CFG -> pass
     links = [
         ("check_global_func_def", "guppylang_internals.checker.func_checker", "build"),
